@@ -20,14 +20,24 @@ def sh(cmd, cwd="/repo", env=None, timeout=900):
 
 def main():
     root = sys.argv[1]
-    props = sys.argv[2:] or sorted(os.listdir(root))
     summary = []
-    for prop in props:
-        pdir = os.path.join(root, prop)
-        if not os.path.isdir(pdir):
-            continue
-        for k in sorted(os.listdir(pdir)):
-            d = os.path.join(pdir, k)
+    if root == "--recheck":
+        # re-validate every kept change in /verif/seeded against the current tree
+        items = []
+        for name in sorted(os.listdir(os.path.join(VERIF, "seeded"))):
+            if "-" in name and os.path.isdir(os.path.join(VERIF, "seeded", name)) and (not sys.argv[2:] or name.split("-")[0] in sys.argv[2:]):
+                items.append((name.split("-")[0], name.split("-")[1], os.path.join(VERIF, "seeded", name)))
+    else:
+        props = sys.argv[2:] or sorted(os.listdir(root))
+        items = []
+        for prop in props:
+            pdir = os.path.join(root, prop)
+            if not os.path.isdir(pdir):
+                continue
+            for k in sorted(os.listdir(pdir)):
+                items.append((prop, k, os.path.join(pdir, k)))
+    for prop, k, d in items:
+        if True:
             if not os.path.exists(os.path.join(d, "patch.diff")):
                 continue
             rc, _ = sh("git diff --quiet")
@@ -53,11 +63,16 @@ def main():
             detected = bool(viol)
             status = ("DETECTED" if detected else ("CHECKER-ERROR" if errs else "MISSED")) if valid else f"INVALID(demo_with={drc},demo_without={crc0},tests_ok={tests_ok})"
             summary.append((prop, k, status, viol[0][:200] if viol else (errs[0][:200] if errs else ""), tout.strip()))
+            if root == "--recheck" and not valid:
+                with open(os.path.join(d, "STALE.txt"), "w") as fd:
+                    fd.write(status + "\n")
             if valid:
+                if os.path.exists(os.path.join(d, "STALE.txt")):
+                    os.remove(os.path.join(d, "STALE.txt"))
                 dest = os.path.join(VERIF, "seeded", f"{prop}-{k}")
                 os.makedirs(dest, exist_ok=True)
                 for f in ("patch.diff", "demo.py", "notes.md"):
-                    if os.path.exists(os.path.join(d, f)):
+                    if os.path.exists(os.path.join(d, f)) and os.path.abspath(d) != os.path.abspath(dest):
                         shutil.copy(os.path.join(d, f), os.path.join(dest, f))
                 meta = {"property": prop, "source": "independent sub-agent given only the property text and a scratch worktree", "needs_to_manifest": "see notes.md",
                         "confirmed": {"demo_exit_with_patch": drc, "demo_exit_without_patch": crc0, "baseline_tests_with_patch": tout.strip()},
